@@ -3,8 +3,8 @@ from props import seqcases
 
 LEVEL = "other"
 TECHNIQUE = "bounded inductive contract check (CBMC): one real operation on an arbitrary well-formed container of enumerated size with symbolic contents, postcondition on the whole abstract sequence"
-LEVEL_TEXT = 'Bounded inductive contract check: every operation of Array, List and Tuple runs on an arbitrary well-formed container of each length 0..3 (thorough 0..4), each capacity the growth policy yields and each index in and around the valid range, with symbolic element values; postconditions are stated on the whole abstract sequence. Sort is decided monolithically to length 2 (Tuple 3 in the thorough tier) and modularly to length 4 (5): the partition contract on every range, the sort of every range with the partition and the recursive calls cut by their contracts (induction on the range length), and the composition. Lengths above the bounds are not decided.'
-NOTE = 'CBMC 6.11; element model contracts; cbmc malloc/realloc/free models with allocation failure excluded; header_init by its K1 contract; sort: monolithic to length 2 (Tuple 3 thorough), modular (partition contract, induction over the range length with the recursive calls cut by the function\'s own contract, composition) to length 4 (5 thorough); the inductive step runs on the text of *_Sort_Part extracted mechanically from /repo on every run with only the name in its definition line changed'
+LEVEL_TEXT = 'Bounded inductive contract check: every operation of Array, List and Tuple runs on an arbitrary well-formed container of each length 0..3 (thorough 0..4), each capacity the growth policy yields and each index in and around the valid range, with symbolic element values; postconditions are stated on the whole abstract sequence. Sort is decided monolithically to length 2 (Tuple 3 in the thorough tier) and modularly to length 4: the partition contract on every range, the sort of every range with the partition and the recursive calls cut by their contracts (induction on the range length), and the composition. Lengths above the bounds are not decided.'
+NOTE = 'CBMC 6.11; element model contracts; cbmc malloc/realloc/free models with allocation failure excluded; header_init by its K1 contract; sort: monolithic to length 2 (Tuple 3 thorough), modular (partition contract, induction over the range length with the recursive calls cut by the function\'s own contract, composition) to length 4; the inductive step runs on the text of *_Sort_Part extracted mechanically from /repo on every run with only the name in its definition line changed'
 EXPLANATION = LEVEL_TEXT
 TRUSTED = ["well-founded induction on the range length for *_Sort_Part (the stub asserts the decrease; the induction principle itself is not mechanised)"]
 
